@@ -169,6 +169,13 @@ var cases = []tcase{
 	{name: "method local invisible after a handled built-in failure in a loop", src: "如何F？\n    输入箱号\n    以项遍历【1，2】：\n        令备注 = 项\n        以“abc”（取样：0、1）\n    输出 1\n    拦截异常：\n        输出 5\n令R = （F：3）\n输出 备注", wantErr: true},
 	{name: "caller may redeclare a name the failed method used", src: "如何F？\n    输入箱号\n    如果 真：\n        以箱号（开箱）\n    输出 1\n    拦截异常：\n        输出 5\n令R = （F：3）\n令箱号 = 9\n输出 箱号", want: 9},
 	{name: "value after a handled failure of a global function", src: "如何F？\n    输入箱号\n    每当 真：\n        令备注 = 7\n        （显示：未有此名）\n    输出 1\n    拦截异常：\n        输出 5\n令R = （F：3）\n输出 R", want: 5},
+	{name: "method input invisible after a built-in failure inside a loop was handled", src: "如何F？\n    输入箱号\n    以项遍历【1，2】：\n        以项（开箱）\n    输出 1\n    拦截异常：\n        输出 5\n令R = （F：3）\n输出 箱号", wantErr: true},
+	{name: "handler does not see the names of the protected body's loop", src: "如何F？\n    输入箱号\n    以项遍历【1，2】：\n        令备注 = 7\n        以项（开箱）\n    输出 1\n    拦截异常：\n        输出 备注\n输出（F：3）", wantErr: true},
+	{name: "handler does not see the protected body's loop variable", src: "如何F？\n    输入箱号\n    以项遍历【1，2】：\n        以项（开箱）\n    输出 1\n    拦截异常：\n        输出 项\n输出（F：3）", wantErr: true},
+	{name: "redeclaration in the caller's block is still reported after a handled failure in a loop", src: "如何F？\n    输入箱号\n    以项遍历【1，2】：\n        以项（开箱）\n    输出 1\n    拦截异常：\n        输出 5\n令乙 = 1\n令R = （F：3）\n令乙 = 2\n输出 乙", wantErr: true},
+	{name: "redeclaration in the caller's block is still reported after a handled failure in a 每当 loop", src: "如何F？\n    输入箱号\n    每当 真：\n        以箱号（开箱）\n    输出 1\n    拦截异常：\n        输出 5\n令乙 = 1\n令R = （F：3）\n令乙 = 2\n输出 乙", wantErr: true},
+	{name: "redeclaration in the caller's block is still reported after a handled failure in a branch", src: "如何F？\n    输入箱号\n    如果 真：\n        以箱号（开箱）\n    输出 1\n    拦截异常：\n        输出 5\n令乙 = 1\n令R = （F：3）\n令乙 = 2\n输出 乙", wantErr: true},
+	{name: "value of a program whose loop body failed in a built-in and was handled at top level", src: "令甲 = 1\n以项遍历【1，2】：\n    以项（开箱）\n输出 1\n拦截异常：\n    输出 5", want: 5},
 	{name: "recursion keeps per-call names apart", src: "如何F？\n    输入N\n    如果 N == 0：\n        输出 0\n    令M = N\n    令S = （F：N - 1）\n    输出 M + S\n输出（F：3）", want: 6},
 }
 
